@@ -27,6 +27,13 @@ def IKinSpaceConstrained(screw_list, ee_home, ee_goal, theta_list,
         boolean: success
 
     """
+    #Start inside the limits: the first error evaluation can already end the search
+    theta_list = theta_list.astype(np.float64)
+    for j in range(len(theta_list)):
+        if theta_list[j] < joint_mins[j]:
+            theta_list[j] = joint_mins[j]
+        if theta_list[j] > joint_maxs[j]:
+            theta_list[j] = joint_maxs[j]
     ee_current = FKinSpace(ee_home, screw_list, theta_list)
     error_vec = np.dot(Adjoint(ee_current),
             se3ToVec(MatrixLog6(np.dot(TransInv(ee_current), ee_goal))))
